@@ -291,15 +291,34 @@ func frameBuilder(v string) (quic.QUICFrameBuilder, bool) {
 			{MinPING: 1, MaxPING: 3, MinCRYPTO: 2, MaxCRYPTO: 6, MinPADDING: 1, MaxPADDING: 3, Length: 1190},
 			{MinPING: 0, MaxPING: 2, MinCRYPTO: 1, MaxCRYPTO: 4, MinPADDING: 1, MaxPADDING: 2, Length: 1180},
 		}}, true
-	case "flight2": // tail first, then the head (Chrome's scatter), two datagrams
+	// Flight builders (QUICFlightFrameBuilder): the whole flight is planned at once; datagrams carry several CRYPTO
+	// frames, out of stream order. Ranges are relative to both ends of the ClientHello, so they fit its length class:
+	// flight1/flight2/rflight2 for ClientHellos of 150..1200 bytes, flight3/rflight3 for 1500..2200 bytes (Chrome 146).
+	case "flight1": // one datagram, three CRYPTO frames out of order with a PING between
 		return &quic.QUICFlightFrames{Datagrams: []quic.QUICFrames{
-			{quic.QUICFrameCrypto{Offset: -200}, quic.QUICFrameCrypto{Offset: 0, Length: 50}},
-			{quic.QUICFrameCrypto{Offset: 50, Length: -200}},
+			{quic.QUICFrameCrypto{Offset: -60}, quic.QUICFramePing{}, quic.QUICFrameCrypto{Offset: 0, Length: 40}, quic.QUICFrameCrypto{Offset: 40, Length: -60}},
+		}}, true
+	case "flight2": // tail first, then the head (Chrome's scatter), two datagrams with two CRYPTO frames each
+		return &quic.QUICFlightFrames{Datagrams: []quic.QUICFrames{
+			{quic.QUICFrameCrypto{Offset: -100}, quic.QUICFrameCrypto{Offset: 0, Length: 40}},
+			{quic.QUICFrameCrypto{Offset: 90, Length: -100}, quic.QUICFramePing{}, quic.QUICFrameCrypto{Offset: 40, Length: 50}},
 		}}, true
 	case "rflight2":
 		return &quic.QUICRandomFlightFrames{PerDatagram: []quic.QUICRandomFlightDatagram{
-			{CryptoRanges: []quic.QUICCryptoRange{{Offset: -300}, {Offset: 0, Length: 80}}, Frames: quic.QUICRandomFrames{MinPING: 1, MaxPING: 3, MinCRYPTO: 1, MaxCRYPTO: 4}},
-			{CryptoRanges: []quic.QUICCryptoRange{{Offset: 80, Length: -300}}, Frames: quic.QUICRandomFrames{MinCRYPTO: 1, MaxCRYPTO: 3}},
+			{CryptoRanges: []quic.QUICCryptoRange{{Offset: -100}, {Offset: 0, Length: 40}}, Frames: quic.QUICRandomFrames{MinPING: 1, MaxPING: 3, MinCRYPTO: 1, MaxCRYPTO: 4}},
+			{CryptoRanges: []quic.QUICCryptoRange{{Offset: 40, Length: -100}}, Frames: quic.QUICRandomFrames{MinCRYPTO: 2, MaxCRYPTO: 5}},
+		}}, true
+	case "flight3": // three datagrams: tail + head, middle part 1 (two frames), middle part 2
+		return &quic.QUICFlightFrames{Datagrams: []quic.QUICFrames{
+			{quic.QUICFrameCrypto{Offset: -300}, quic.QUICFrameCrypto{Offset: 0, Length: 60}},
+			{quic.QUICFrameCrypto{Offset: 400, Length: 360}, quic.QUICFrameCrypto{Offset: 60, Length: 340}},
+			{quic.QUICFrameCrypto{Offset: 760, Length: -300}, quic.QUICFramePing{}},
+		}}, true
+	case "rflight3":
+		return &quic.QUICRandomFlightFrames{PerDatagram: []quic.QUICRandomFlightDatagram{
+			{CryptoRanges: []quic.QUICCryptoRange{{Offset: -300}, {Offset: 0, Length: 60}}, Frames: quic.QUICRandomFrames{MinPING: 0, MaxPING: 2, MinCRYPTO: 1, MaxCRYPTO: 3}},
+			{CryptoRanges: []quic.QUICCryptoRange{{Offset: 60, Length: 700}}, Frames: quic.QUICRandomFrames{MinCRYPTO: 2, MaxCRYPTO: 4}},
+			{CryptoRanges: []quic.QUICCryptoRange{{Offset: 760, Length: -300}}, Frames: quic.QUICRandomFrames{MinCRYPTO: 2, MaxCRYPTO: 4}},
 		}}, true
 	}
 	return nil, false
@@ -308,7 +327,8 @@ func frameBuilder(v string) (quic.QUICFrameBuilder, bool) {
 // specFacts: what the model needs to know about a spec value (read before and after every dial).
 func specFacts(spec *quic.QUICSpec) string {
 	if spec == nil {
-		return "S[ nil ]"
+		mu, mb := streamLimits(nil)
+		return fmt.Sprintf("S[ nil mu=%d mb=%d ]", mu, mb)
 	}
 	ips := spec.InitialPacketSpec
 	qtp, isc, ks := 0, "N", 0
@@ -343,7 +363,8 @@ func specFacts(spec *quic.QUICSpec) string {
 		}
 	}
 	tokn := max(ips.ClientTokenLength, len(ips.ClientTokenPrefix))
-	return fmt.Sprintf("S[ scid=%d dcid=%d qtp=%d isc=%s supp15=%d ks=%d min=%d tok=%d ]", ips.SrcConnIDLength, ips.DestConnIDLength, qtp, isc, suppIscid, ks, spec.UDPDatagramMinSize, tokn)
+	mu, mb := streamLimits(spec)
+	return fmt.Sprintf("S[ scid=%d dcid=%d qtp=%d isc=%s supp15=%d ks=%d min=%d tok=%d mu=%d mb=%d ]", ips.SrcConnIDLength, ips.DestConnIDLength, qtp, isc, suppIscid, ks, spec.UDPDatagramMinSize, tokn, mu, mb)
 }
 
 // ---------------------------------------------------------------- server / client configs
@@ -619,6 +640,7 @@ func (r *rec) tracer() func(context.Context, bool, quic.ConnectionID) qlogwriter
 }
 
 type scen struct {
+	fan     bool // after the echo, the server opens every stream the client's transport parameters allow
 	env     *e2e.Env
 	slog    *rec
 	clog    *rec
@@ -689,6 +711,9 @@ func startScen(spec *quic.QUICSpec, plain bool, ccfg *quic.Config, faults []e2e.
 				s.srvData <- r
 				st.Write(reply(b))
 				st.Close()
+				if s.fan && rerr == nil {
+					s.fanOut(c)
+				}
 				// keep the connection until the client closes it (or the scenario ends)
 				<-c.Context().Done()
 			}()
@@ -803,6 +828,111 @@ func dialDCIDs(env *e2e.Env, c2sFrom int) map[string]bool {
 	return out
 }
 
+const fanMsgLen = 48
+
+// fanOut: the server uses the stream counts the client ADVERTISED: it opens unidirectional and bidirectional streams
+// until its (peer-given) limit is reached, all concurrently open, sends on each, then finishes them.
+func (s *scen) fanOut(c *quic.Conn) {
+	var us []*quic.SendStream
+	for len(us) < 2000 {
+		u, err := c.OpenUniStream()
+		if err != nil {
+			break
+		}
+		us = append(us, u)
+	}
+	var bs []*quic.Stream
+	for len(bs) < 2000 {
+		b, err := c.OpenStream()
+		if err != nil {
+			break
+		}
+		bs = append(bs, b)
+	}
+	msg := func(k int) []byte { return []byte(fmt.Sprintf("%-*d", fanMsgLen, k)) }
+	for k, u := range us {
+		u.Write(msg(k))
+	}
+	for k, b := range bs {
+		b.Write(msg(k))
+	}
+	for _, u := range us {
+		u.Close()
+	}
+	for _, b := range bs {
+		b.Close()
+	}
+}
+
+// fanIn: the client accepts the streams it advertised room for and reads each to its end.
+func (s *scen) fanIn(conn *quic.Conn, wantU, wantB int) string {
+	ctx, cancel := context.WithTimeout(context.Background(), 30*time.Second)
+	defer cancel()
+	gotU, gotB := 0, 0
+	var errU, errB error
+	var wg sync.WaitGroup
+	wg.Add(2)
+	go func() {
+		defer wg.Done()
+		for gotU < wantU {
+			st, err := conn.AcceptUniStream(ctx)
+			if err != nil {
+				errU = err
+				return
+			}
+			st.SetReadDeadline(time.Now().Add(30 * time.Second))
+			if b, err := io.ReadAll(st); err != nil || len(b) != fanMsgLen {
+				errU = err
+				return
+			}
+			gotU++
+		}
+	}()
+	go func() {
+		defer wg.Done()
+		for gotB < wantB {
+			st, err := conn.AcceptStream(ctx)
+			if err != nil {
+				errB = err
+				return
+			}
+			st.SetReadDeadline(time.Now().Add(30 * time.Second))
+			if b, err := io.ReadAll(st); err != nil || len(b) != fanMsgLen {
+				errB = err
+				return
+			}
+			st.Close()
+			gotB++
+		}
+	}()
+	wg.Wait()
+	r := fmt.Sprintf("u%d/%d,b%d/%d", gotU, wantU, gotB, wantB)
+	if errU != nil {
+		r += ":" + canonErr(errU)
+	} else if errB != nil {
+		r += ":" + canonErr(errB)
+	}
+	return r
+}
+
+// streamLimits: initial_max_streams_uni / _bidi the client puts on the wire (no spec: the Config defaults).
+func streamLimits(spec *quic.QUICSpec) (mu, mb int) {
+	if spec == nil {
+		return protocol.DefaultMaxIncomingUniStreams, protocol.DefaultMaxIncomingStreams
+	}
+	if q := qtpExt(spec); q != nil {
+		for _, p := range q.TransportParameters {
+			switch v := p.(type) {
+			case tls.InitialMaxStreamsUni:
+				mu = int(v)
+			case tls.InitialMaxStreamsBidi:
+				mb = int(v)
+			}
+		}
+	}
+	return
+}
+
 // oneDial dials once and, on success, moves 10 KiB each way on one bidirectional stream.
 func (s *scen) oneDial(i int) string {
 	env := s.env
@@ -813,12 +943,19 @@ func (s *scen) oneDial(i int) string {
 	defer cancel()
 	conn, err := env.Dial(ctx)
 	out := canonErr(err)
+	if err != nil && os.Getenv("DIAL_DEBUG_ERR") != "" {
+		fmt.Fprintf(os.Stderr, "dial %d error: %v\n", i, err)
+	}
 	extra := ""
 	if err == nil {
 		cs := conn.ConnectionState()
 		extra = fmt.Sprintf(" v=%d alpn=%s", versionNo(cs.Version), cs.TLS.NegotiatedProtocol)
 		up, down := s.moveData(conn, i)
 		extra += " up=" + up + " down=" + down
+		if s.fan && strings.HasPrefix(up, "10240:") && strings.HasPrefix(down, "10240:") {
+			mu, mb := streamLimits(env.ClientUTr.QUICSpec)
+			extra += " fan=" + s.fanIn(conn, mu, mb)
+		}
 		conn.CloseWithError(0, "")
 		time.Sleep(300 * time.Millisecond) // let the close reach the server before the next dial
 	}
@@ -950,6 +1087,9 @@ func execOp(op string) string {
 					}
 					var err error
 					s, err = startScen(spec, false, &quic.Config{}, faults, sc, seed)
+					if s != nil {
+						s.fan = true
+					}
 					if err != nil {
 						res = append(res, "E:setup")
 						s = nil
@@ -1282,6 +1422,22 @@ func (rn *runner) GenOp(r *vh.Rand, i int) string {
 		return fmt.Sprintf("cmp ccfg=%s faults=%s srv=%s seed=%d", ccfg, genFaults(r), srv, seed)
 	}
 	base := baseNames[r.Pick(12, 10, 10, 12, 10, 12, 10, 3, 3, 3)]
+	if r.Chance(14) {
+		// planned flights (QUICFlightFrameBuilder): datagrams with several CRYPTO frames x loss of the first, the second,
+		// both (or the third) Initial datagram, so that every planned datagram has to be retransmitted completely
+		fb := []string{"flight1", "flight2", "rflight2"}[r.Intn(3)]
+		losses := []string{"c0:drop", "c1:drop", "c0:drop,c1:drop", "c0:drop,s0:drop", "c0:dup,c1:drop", "c0:delay700", "-"}
+		if strings.HasPrefix(base, "C146") {
+			fb = []string{"flight3", "rflight3"}[r.Intn(2)]
+			losses = append(losses, "c2:drop", "c1:drop,c2:drop", "c0:drop,c2:drop")
+		}
+		der := "fb:" + fb
+		if r.Chance(40) {
+			der += "," + []string{"tok:16", "pn:7", "shuf", "scid:8", "dcid:12", "pnl:2", "rot:3"}[r.Intn(7)]
+		}
+		fsrv := []string{"def", "retry", "v2", "nopmtud", "smallwin"}[r.Pick(50, 20, 10, 10, 10)]
+		return fmt.Sprintf("dial base=%s der=%s n=%d tr=%s fresh=0 faults=%s srv=%s seed=%d", base, der, 1+r.Intn(2), []string{"same", "new"}[r.Intn(2)], losses[r.Intn(len(losses))], fsrv, seed)
+	}
 	n := 1 + r.Pick(40, 35, 25)
 	tr := []string{"same", "new"}[r.Pick(60, 40)]
 	fresh := r.Pick(70, 30)
